@@ -684,3 +684,169 @@ def _(c):
             return And(st._exclusionEnabled, len(sent(f)) == 0)
         return And(Not(st._exclusionEnabled), Not(st.excluding))
     c.ensures("C14.single-action-effect", last_action_wins, props=("C14",))
+
+
+# ------------------------------------------------------------------------------------------ C16: planArc (own verification)
+from pyvc.ops import Cos, Sin, Pi, trig_addition, trig_chord, trig_period, trig_pythagoras, sq   # noqa: E402
+
+
+def glen(lst):
+    if hasattr(lst, "n"):
+        return lst.n
+    if hasattr(lst, "items"):
+        return len(lst.items)
+    return len(lst)
+
+
+def gelem(lst, i):
+    if hasattr(lst, "get"):
+        return lst.get(i)
+    if hasattr(lst, "items"):
+        return lst.items[i]
+    return lst[i]
+
+
+def mk_growlist(ctx):
+    from pyvc.growlist import GrowList
+    return GrowList.symbolic(ctx, "rval")
+
+
+def _planarc_contract():
+    c = REGISTRY.get(H + "planArc")
+
+    def pre(b):
+        st = mk_motion_state(b, lastRetraction="opaque", lastPosition="opaque", enter="opaque", exit="opaque", pending="opaque")
+        h = mk_handlers(b, st)
+        return {"self": h, "args": {"endX": b.real("endX"), "endY": b.real("endY"), "i": b.real("i"), "j": b.real("j"),
+                                    "clockwise": b.bool("clockwise")}}
+    c.pre(pre)
+    c.requires("position-known-units-ok", lambda f: inv_type(f.self.state))
+    c.requires("centre-offset-nonzero", lambda f: Or(Not(eq(f.a.i, 0)), Not(eq(f.a.j, 0))))      # caller: `if (i or j)`
+
+    def start(L):
+        pos = L.f.old.self.state.position
+        return A.n2l_current(pos.X_AXIS), A.n2l_current(pos.Y_AXIS)
+
+    def inv(L, k):
+        x0, y0 = start(L)
+        cx, cy = x0 + L.i, y0 + L.j
+        r2 = sq(L.i) + sq(L.j)
+        r = L.radius
+        T, inc, n = L.angularTravel, L.angularIncrement, L.numSegments
+        cw = L.clockwise
+        prev_x = If(k == 0, x0, gelem(L.rval, 2 * k - 2)) if not isinstance(k, int) or k > 0 else x0
+        prev_y = If(k == 0, y0, gelem(L.rval, 2 * k - 1)) if not isinstance(k, int) or k > 0 else y0
+        sweep = And(Implies(cw, And(-2 * Pi() <= T, T < 0)), Implies(Not(cw), And(0 <= T, T <= 2 * Pi())))
+        return And(eq(glen(L.rval), 2 * k), r >= 0, eq(sq(r), r2), n >= 1, eq(inc * n, T), sweep,
+                   eq(prev_x, cx + r * Cos(L.angle)), eq(prev_y, cy + r * Sin(L.angle)),
+                   sq(r * inc) <= 1)
+
+    def reveal(L, k):
+        return [trig_addition(L.angle, L.angularIncrement), trig_chord(L.angularIncrement)]
+
+    def check(L, k):
+        """Facts about the sample appended in this iteration (index k, 0-based), for arbitrary k."""
+        x0, y0 = start(L)
+        cx, cy = x0 + L.i, y0 + L.j
+        r2 = sq(L.i) + sq(L.j)
+        nx, ny = gelem(L.rval, 2 * k), gelem(L.rval, 2 * k + 1)
+        px = If(k == 0, x0, gelem(L.rval, 2 * k - 2))
+        py = If(k == 0, y0, gelem(L.rval, 2 * k - 1))
+        inc = L.angularIncrement
+        a0, a1 = L.pre.angle, L.angle          # angle before / after this iteration (a1 is the term a0 + inc)
+        r = L.radius
+        step = And(eq(nx - px, r * (Cos(a1) - Cos(a0))), eq(ny - py, r * (Sin(a1) - Sin(a0))))
+        chord = eq(sq(nx - px) + sq(ny - py), r2 * (2 - 2 * Cos(inc)))
+        return [("C16.sample-on-circle", eq(sq(nx - cx) + sq(ny - cy), r2)),
+                # lemma chain: squared distance = r^2 (2 - 2 cos inc) <= (r inc)^2 <= 1
+                ("C16.lemma-step-vector", step),
+                ("C16.lemma-distance-is-chord", chord, [step, trig_addition(a0, inc), eq(sq(r), r2)]),
+                ("C16.lemma-chord-below-arc", r2 * (2 - 2 * Cos(inc)) <= r2 * sq(inc), [trig_chord(inc), r2 >= 0]),
+                ("C16.samples-at-most-one-unit-apart", sq(nx - px) + sq(ny - py) <= 1,
+                 [chord, r2 * (2 - 2 * Cos(inc)) <= r2 * sq(inc), eq(sq(r), r2), sq(r * inc) <= 1])]
+
+    c.loop(0, invariant=inv, reveal=reveal, check=check,
+           havoc={"angle": "real", "rval": mk_growlist}, scratch=["dummy"])
+    c.loops[0].check_props = ("C16",)
+    c.ensures("C16.ends-exactly-at-endpoint", lambda f: And(
+        glen(f.result) >= 2, eq(glen(f.result) % 2, 0) if ops.is_sym(glen(f.result)) else glen(f.result) % 2 == 0,
+        eq(gelem(f.result, glen(f.result) - 2), f.a.endX), eq(gelem(f.result, glen(f.result) - 1), f.a.endY)), props=("C16", "C01"))
+    c.modifies()
+
+
+_planarc_contract()
+
+
+def _arc_centre_contract():
+    c = REGISTRY.get(H + "computeArcCenterOffsets")
+
+    def pre(b):
+        st = mk_motion_state(b, lastRetraction="opaque", lastPosition="opaque", enter="opaque", exit="opaque", pending="opaque")
+        return {"self": mk_handlers(b, st), "args": {"endX": b.real("endX"), "endY": b.real("endY"), "radius": b.real("radius"),
+                                                     "clockwise": b.bool("clockwise")}}
+    c.pre(pre)
+    c.requires("position-known-units-ok", lambda f: inv_type(f.self.state))
+
+    def geometry(f):
+        pos = f.self.state.position
+        p1, q1 = A.n2l_current(pos.X_AXIS), A.n2l_current(pos.Y_AXIS)
+        dx, dy = f.a.endX - p1, f.a.endY - q1
+        R = f.a.radius
+        i, j = f.result
+        defined = And(Not(eq(R, 0)), Or(Not(eq(dx, 0)), Not(eq(dy, 0))), (sq(dx) + sq(dy)) / 4 <= sq(R))
+        return If(defined,
+                  And(eq(sq(i) + sq(j), sq(R)), eq(sq(dx - i) + sq(dy - j), sq(R))),     # |R| from both end points
+                  And(eq(i, 0), eq(j, 0)))
+
+    def oblique(f):
+        pos = f.self.state.position
+        p1, q1 = A.n2l_current(pos.X_AXIS), A.n2l_current(pos.Y_AXIS)
+        dx, dy = f.a.endX - p1, f.a.endY - q1
+        return And(Not(eq(dx, 0)), Not(eq(dy, 0)), Not(eq((sq(dx) + sq(dy)) / 4, sq(f.a.radius))))
+    c.ensures("C16.centre-equidistant-from-endpoints", geometry, props=("C16",),
+              cases={"oblique-chord": oblique})
+
+
+_arc_centre_contract()
+
+
+def _planarc_native_clauses():
+    """Natively evaluable forms of the per-sample facts (used when a counter-model / probe is replayed on the real
+    code; symbolically they are established at the append site, see the loop contract)."""
+    c = REGISTRY.get(H + "planArc")
+
+    def samples(f):
+        pos = f.old.self.state.position
+        x0, y0 = A.n2l_current(pos.X_AXIS), A.n2l_current(pos.Y_AXIS)
+        pts = [(x0, y0)] + [(f.result[k], f.result[k + 1]) for k in range(0, len(f.result) - 2, 2)]
+        return x0 + f.a.i, y0 + f.a.j, pts
+
+    def on_circle(f):
+        if not getattr(f, "native", False) or f.exc is not None:
+            return True
+        cx, cy, pts = samples(f)
+        r2 = f.a.i ** 2 + f.a.j ** 2
+        return all(abs((px - cx) ** 2 + (py - cy) ** 2 - r2) <= 1e-6 * (1 + r2) for (px, py) in pts[1:])
+
+    def spaced(f):
+        if not getattr(f, "native", False) or f.exc is not None:
+            return True
+        cx, cy, pts = samples(f)
+        return all((a[0] - b[0]) ** 2 + (a[1] - b[1]) ** 2 <= 1 + 1e-6 for a, b in zip(pts, pts[1:]))
+
+    def direction(f):
+        if not getattr(f, "native", False) or f.exc is not None:
+            return True
+        import math
+        cx, cy, pts = samples(f)
+        for a, b in zip(pts, pts[1:]):
+            cross = (a[0] - cx) * (b[1] - cy) - (a[1] - cy) * (b[0] - cx)
+            if abs(cross) > 1e-9 and (cross < 0) != bool(f.a.clockwise):
+                return False
+        return True
+    c.ensures("C16.sample-on-circle", on_circle, props=("C16",))
+    c.ensures("C16.samples-at-most-one-unit-apart", spaced, props=("C16",))
+    c.ensures("loop0.inv-entry", direction, props=("C16",))
+
+
+_planarc_native_clauses()
